@@ -39,3 +39,31 @@ Theorem C03_maps_example :
   [[117;115;101;114;95;105;100]; [117;115;101;114;95;105;100;95;50]; [117;115;101;114;95;105;100;95;51]].
 Proof. exact maps_demo. Qed.
 Print Assumptions C03_maps_example.
+
+(* C03_roundtrip.  For ANY name sanitizer and ANY list of object schemas in the fragment (schema_ok:
+   distinct property names; properties are scalars, any string format, enums, arrays of those, and
+   references to schemas of the list — additionalProperties maps are outside this theorem): with the
+   class table the generator produces (gen_class: field naming, Meta maps, format table, defaults),
+   every document that conforms to a generated model is structured by the bundled converter, and
+   unstructuring the instance gives the document back — wire keys are the spec's property names —
+   up to key order and absent optional properties reappearing as null / empty container (rt_rel).
+   Any base64 codec with dec (enc b) = b, any ISO/UUID parsers; hooks of the table's classes registered
+   (what the entry points do: C16_api_* theorems). *)
+Theorem C03_roundtrip :
+  forall sanitize ss, (forall s, In s ss -> schema_ok (map s_id ss) s) ->
+  forall b64dec b64enc dt_parse date_parse uuid_parse time_parse int_of_str float_of_str str_of_json sreg ureg,
+    let ct := map (gen_class sanitize) ss in
+    (forall b, b64dec (b64enc b) = Some b) -> all_hooked ct sreg -> all_hooked ct ureg ->
+    forall c j, conforms b64enc dt_parse date_parse uuid_parse time_parse ct (TData c) j ->
+    exists v j',
+      structure b64dec dt_parse date_parse uuid_parse time_parse int_of_str float_of_str str_of_json ct sreg j (TData c) = Ok v /\
+      unstructure b64enc ct ureg v (TData c) = Ok j' /\ rt_rel ct (TData c) j j'.
+Proof. intros sanitize ss H. intros. eapply roundtrip_gen; eassumption. Qed.
+Print Assumptions C03_roundtrip.
+
+Theorem C03_roundtrip_nonvacuous :
+  schema_ok [0] s_demo /\
+  forall b64enc dt_parse date_parse uuid_parse time_parse,
+    conforms b64enc dt_parse date_parse uuid_parse time_parse [gen_class san_demo s_demo] (TData 0) j_gen_demo.
+Proof. exact (conj s_demo_ok j_gen_demo_conforms). Qed.
+Print Assumptions C03_roundtrip_nonvacuous.
